@@ -299,7 +299,15 @@ def const_tables():
     return ["def neverExpression : String := %s" % lstr(never_expr), "def separatorClassExpression : String := %s" % lstr(sep_class),
             "def rootSeparatorExpression : String := %s" % lstr(root_sep), "def semanticLiterals : List String := [%s]" % ", ".join(lstr(x) for x in sem_lits)]
 
+import ruletables
+def rule_tables():
+    try:
+        return ruletables.lean_lines(read("rule.rs"))
+    except ruletables.Missing as ex:
+        fail("branch-rule tables: %s" % ex)
+
 files = {"Generated": "\n".join(core) + "\n",
+         "GeneratedRule": module("GeneratedRule", [("branch-rule tables", rule_tables)]),
          "GeneratedChars": module("GeneratedChars", [("character tables", chars_tables)]),
          "GeneratedTermn": module("GeneratedTermn", [("termination table", termn_table)]),
          "GeneratedWhen": module("GeneratedWhen", [("When tables", when_tables)]),
